@@ -55,6 +55,33 @@ impl LineStyle {
         }
     }
     pub fn build<'a>(&self, font: &'a MonoFont<'a>) -> MonoTextStyle<'a, C> {
+        // the font is selected first, last (after the decorations), or the finished style is given another
+        // font through `MonoTextStyleBuilder::from(&style).font(..)`; chosen by the decoration pattern so
+        // that no extra tape word is needed
+        let route = (self.text.is_some() as u32 + 2 * self.background.is_some() as u32 + match self.underline { DecorationColor::None => 0, DecorationColor::TextColor => 1, DecorationColor::Custom(_) => 2 }) % 3;
+        if route != 0 {
+            let mut b = MonoTextStyleBuilder::new();
+            if route == 2 {
+                b = b.font(&embedded_graphics::mono_font::ascii::FONT_4X6);
+            }
+            if let Some(c) = self.text {
+                b = b.text_color(c);
+            }
+            if let Some(c) = self.background {
+                b = b.background_color(c);
+            }
+            b = match self.underline {
+                DecorationColor::None => b,
+                DecorationColor::TextColor => b.underline(),
+                DecorationColor::Custom(c) => b.underline_with_color(c),
+            };
+            b = match self.strikethrough {
+                DecorationColor::None => b,
+                DecorationColor::TextColor => b.strikethrough(),
+                DecorationColor::Custom(c) => b.strikethrough_with_color(c),
+            };
+            return if route == 1 { b.font(font).build() } else { MonoTextStyleBuilder::from(&b.build()).font(font).build() };
+        }
         let mut b = MonoTextStyleBuilder::new().font(font);
         if let Some(c) = self.text {
             b = b.text_color(c);
